@@ -20,13 +20,13 @@ theorem OkS.trans {s t u : Fw σ} (h₁ : OkS s t) (h₂ : OkS t u) : OkS s u :=
   obtain ⟨hV2, hS2, hN2, hL2⟩ := h₂ hV1 hS1
   exact ⟨hV2, hS2, hN1.trans hN2, hL2.trans hL1⟩
 
-theorem unset_le_two (s : Fw σ) : unset s ≤ 2 := by
-  unfold unset; cases s.zeroedA <;> cases s.zeroedB <;> simp
+theorem unset_le_two (s : Fw σ) (mi : Nat) : unset s mi ≤ 2 := by
+  unfold unset; cases zeroedAOf s mi <;> cases zeroedBOf s mi <;> simp
 
 theorem okS_transition (mi : Nat) (ev : Event) (s : Fw σ) (hmi : mi < s.rt.length) :
     OkS s (transition ρ FUEL mi ev s).1 := by
   intro hV hS
-  have h := (safe_main ρ FUEL).1 mi ev s hV hmi (by have := unset_le_two s; unfold FUEL; omega)
+  have h := (safe_main ρ FUEL).1 mi ev s hV hmi (by have := unset_le_two s mi; unfold FUEL; omega)
   have hre := transition_reach ρ FUEL mi ev s
   exact ⟨hV.reach hre, h.2 hS, h.1, hre.frame.rtLen⟩
 
@@ -52,20 +52,23 @@ theorem okS_decrement (mi : Nat) (s : Fw σ) (hmi : mi < s.rt.length) (hne : not
     obtain ⟨st, hst, _⟩ := hV.states_some hm hr hnend
     rw [hst]
     simp only []
-    have k1 := keep_modRt s mi (fun r' => { r' with stateLimit := lim }) hmi
-    have hV1 : Valid (s.modRt mi (fun r' => { r' with stateLimit := lim })) :=
+    have k1 : Keep s ((s.modRt mi (fun r' => { r' with stateLimit := lim })).push (.limit mi lim true)) :=
+      (keep_modRt s mi (fun r' => { r' with stateLimit := lim }) hmi).trans ⟨rfl, rfl, rfl⟩
+    have hV1' : Valid (s.modRt mi (fun r' => { r' with stateLimit := lim })) :=
       hV.modRt mi _ (fun m' r' hm' hr' => hV.cur mi m' r' hm' hr')
+    have hV1 : Valid ((s.modRt mi (fun r' => { r' with stateLimit := lim })).push (.limit mi lim true)) :=
+      ⟨hV1'.lenRt, hV1'.lenAct, hV1'.ok, hV1'.cur⟩
+    generalize (s.modRt mi (fun r' => { r' with stateLimit := lim })).push (.limit mi lim true) = s1 at k1 hV1 ⊢
     cases hact : st.action with
     | none => first | exact k1.sigOK hS | exact k1.noNewBad
     | some a =>
       simp only []
       by_cases hc : (lim = 0 && a.hasLimit) = true
       · rw [if_pos hc]
-        have hlen : ¬ mi ≥ (s.modRt mi (fun r' => { r' with stateLimit := lim })).actions.length := by
-          simp only [Fw.modRt_actions]; rw [hV.lenAct, ← hV.lenRt]; omega
+        have hlen : ¬ mi ≥ s1.actions.length := by
+          rw [hV1.lenAct, ← hV1.lenRt, k1.rtLen]; omega
         rw [if_neg hlen]
-        generalize hs2 : ({ (s.modRt mi (fun r' => { r' with stateLimit := lim })) with
-          actions := (s.modRt mi (fun r' => { r' with stateLimit := lim })).actions.set mi none } : Fw σ) = s2
+        generalize hs2 : ({ s1 with actions := s1.actions.set mi none } : Fw σ) = s2
         have k2 : Keep s s2 := by subst hs2; exact k1.trans ⟨rfl, rfl, rfl⟩
         have hV2 : Valid s2 := by
           subst hs2
@@ -277,8 +280,21 @@ theorem okS_signalRound (s : Fw σ) : OkS s (signalRound ρ s) := by
           (by rw [hL3, hL2]; exact hx) hV3 hS3
         exact ⟨hV4, hS4, (hN2.trans hN3).trans hN4, hL4.trans (hL3.trans hL2)⟩
 
-theorem okS_callStart (s : Fw σ) (t : Int) : OkS s (s.callStart t) :=
-  fun hV hS => ⟨⟨hV.lenRt, by simpa [Fw.callStart] using hV.lenAct, hV.ok, hV.cur⟩, hS, NoNewBad.refl s, rfl⟩
+theorem okS_callStart (s : Fw σ) (t : Int) : OkS s (s.callStart t) := by
+  intro hV hS
+  have hlen : (s.callStart t).rt.length = s.rt.length := by simp [Fw.callStart]
+  refine ⟨⟨by rw [hlen]; exact hV.lenRt, by simpa [Fw.callStart] using hV.lenAct, hV.ok, ?_⟩, ?_, NoNewBad.refl s, hlen⟩
+  · intro i m r hm hr
+    simp only [Fw.callStart, List.getElem?_map] at hm hr
+    cases hr0 : s.rt[i]? with
+    | none => rw [hr0] at hr; simp at hr
+    | some r0 =>
+      rw [hr0] at hr
+      simp only [Option.map_some, Option.some.injEq] at hr
+      subst hr
+      exact hV.cur i m r0 hm hr0
+  · intro x hx
+    rw [hlen]; exact hS x hx
 
 theorem okS_triggerEvents (es : List TEvent) (t : Int) (s : Fw σ) : OkS s (triggerEvents ρ es t s) := by
   unfold triggerEvents
